@@ -114,10 +114,12 @@ class World:
         # over all elements update every element
         saved_mode = e.typestate_mode
         e.typestate_mode = True
+        e.constructing = True
         try:
             e.call_function(init, Val(refs=[mab.oid]), mab_cls, args, {}, None)
         finally:
             e.typestate_mode = saved_mode
+            e.constructing = False
         self.init_trace = root
         # everything reachable from the bandit now belongs to the bandit
         for oid in self.reachable(mab.oid):
